@@ -39,7 +39,7 @@ def fmul (a b : Nat) : Nat := mulMod a b E.p
 def finv (a : Nat) : Nat := invMod a E.p
 
 /-- The identity as `assign_point_unchecked` writes it: flag set, coordinates `(0, 0)`. -/
-def id : WPt := ⟨true, 0, 0⟩
+def id (_E : WCurve) : WPt := ⟨true, 0, 0⟩
 
 def onCurve (P : WPt) : Bool :=
   E.fmul P.y P.y == E.fadd (E.fmul (E.fmul P.x P.x) P.x) (E.b % E.p)
@@ -76,7 +76,7 @@ def add (P Q : WPt) : WPt :=
 def neg (P : WPt) : WPt := ⟨P.isId, P.x, negMod P.y E.p⟩
 
 /-- Canonical form of a value (identity ↦ `(true, 0, 0)`). -/
-def canon (P : WPt) : WPt := if P.isId then E.id else P
+def canon (E : WCurve) (P : WPt) : WPt := if P.isId then E.id else P
 
 /-- `n · P` by double-and-add from the least significant bit, as `mul_by_u128`
 (`fuel` ≥ number of bits of `n`). -/
@@ -94,8 +94,9 @@ def smul (n : Nat) (P : WPt) : WPt :=
   | none => E.id
 
 /-- `mul_by_constant`: how the code turns a scalar of at most 128 bits into a `u128`:
-`to_u64_digits().iter().fold(0u128, |acc, limb| acc + *limb as u128)`. -/
-def u128OfDigits (s : Nat) : Nat := s % 2 ^ 64 + (s / 2 ^ 64) % 2 ^ 64
+`to_u64_digits().iter().rev().fold(0u128, |acc, limb| (acc << 64) | *limb as u128)`
+(at most two digits). -/
+def u128OfDigits (s : Nat) : Nat := ((s / 2 ^ 64) % 2 ^ 64) * 2 ^ 64 + s % 2 ^ 64
 
 /-- Outcome of an instruction: a point, or the constraint system is unsatisfiable. -/
 inductive Res where
@@ -103,15 +104,14 @@ inductive Res where
   | unsat
 deriving Repr, BEq
 
-/-- `mul_by_constant(s, P)` with `s` reduced modulo `r`:
-* at most 128 bits: `mul_by_u128(u128OfDigits s, P')` with the identity swapped for the generator
-  and swapped back;
-* otherwise `msm_by_le_bits`, whose `windowed_msm` asserts that the base is not the identity. -/
+/-- `mul_by_constant(s, P)` with `s` reduced modulo `r`: in both branches the identity is swapped
+for the generator before the (incomplete) multiplication and swapped back afterwards;
+* at most 128 bits: `mul_by_u128(u128OfDigits s, P')`;
+* otherwise `msm_by_le_bits` on the bits of `s`. -/
 def mulByConstant (s : Nat) (P : WPt) : Res :=
-  if s < 2 ^ 128 then
-    if P.isId then .ok E.id else .ok (E.smul (u128OfDigits s) P)
-  else
-    if P.isId then .unsat else .ok (E.smul s P)
+  if P.isId then .ok E.id
+  else if s < 2 ^ 128 then .ok (E.smul (u128OfDigits s) P)
+  else .ok (E.smul s P)
 
 /-- `msm` / `msm_by_bounded_scalars` / `msm_by_le_bits`-through-`mul`: `Σ sᵢ·Pᵢ`. -/
 def msm (terms : List (Nat × WPt)) : WPt :=
